@@ -43,7 +43,9 @@ static void build_lines(void)
   l = malloc(9100); l[0] = '#'; memset(l + 1, 'c', 9000); l[9001] = 0; LINES[NLINES++] = l;
 }
 
-static const char *SHAPE_LINES[7] = { "k=v", "k=", "k", "j=w", "j", "[A]", "[B]" };
+/* items (one or two lines) that span the shapes: values present/absent, bare keys, repeated keys, re-opened and empty sections */
+#define NSHAPE_ITEMS 9
+static const char *SHAPE_LINES[NSHAPE_ITEMS] = { "k=v", "k=", "k", "j=w", "j", "[A]\nk=v", "[B]\nj=w", "[A]\nj", "[B]" };
 static const int SHAPE_CFG[4] = { 0 /* = # */, 6 /* '' # */, 2 /* ' ' # */, 21 /* = # JOIN */ };
 static int shape_mode, shape_n;
 static int final_nl;
@@ -55,7 +57,7 @@ static void gen(void)
     content_len = 0;
     int nl = mc_choose(shape_n + 1);
     for (int i = 0; i < nl; i++) {
-      const char *l = SHAPE_LINES[mc_choose(7)];
+      const char *l = SHAPE_LINES[mc_choose(NSHAPE_ITEMS)];
       size_t ll = strlen(l);
       memcpy(content + content_len, l, ll); content_len += ll;
       content[content_len++] = '\n';
